@@ -118,7 +118,7 @@ def via_dict_api(doc):
 
 
 def _expr_to_str(x):
-    if isinstance(x, refdict.Expr):
+    if isinstance(x, (refdict.Expr, refdict.ListX)):
         return x.src
     if isinstance(x, dict):
         return OrderedDict((k, _expr_to_str(v)) for k, v in x.items())
